@@ -110,7 +110,7 @@ def sanity(traces):
 def tlc_judge(prop, traces, label):
     """Rejected (trace index, line) pairs of the property's formula, over all traces (chunked TLC runs)."""
     fml = CFG[prop]["formula"]
-    rej, nev, wall, k, ci = [], 0, 0.0, 0, 0
+    rej, drift, nev, wall, k, ci = [], [], 0, 0.0, 0, 0
     while k < len(traces):
         chunk, ne = [], 0
         k0 = k
@@ -120,13 +120,14 @@ def tlc_judge(prop, traces, label):
             k += 1
         twd = vlib.workdir(prop, "tv_%s_%d" % (label, ci))
         ci += 1
-        rejected, st = vlib.validate_traces(prop, twd, "TraceSigner.tla", TRACE_CFG, [fml], chunk)
+        rejected, st = vlib.validate_traces(prop, twd, "TraceSigner.tla", TRACE_CFG, [fml, "Strict"], chunk)
         rej += [(k0 + ti, li) for (ti, li) in rejected[fml]]
+        drift += [(k0 + ti, li) for (ti, li) in rejected["Strict"] if (ti, li) not in set(rejected[fml])]
         nev += st["events"]
         wall += st["wall"]
         shutil.rmtree(twd, ignore_errors=True)
     log("[tlc] trace validation %s: %d traces / %d events in %.1fs, %d steps rejected by %s" % (label, len(traces), nev, wall, len(rej), fml))
-    return rej, nev
+    return rej, nev, drift
 
 
 def vkey(trace, li):
@@ -156,9 +157,24 @@ def judge(prop, verdict, sbin, bbin, traces, label, stats):
     """TLC judges the traces; rejected signer cases are re-executed once (single lane, long per-try timeout) and only
     reported when the real code is rejected again (guards against timing interference; the code is deterministic)."""
     sanity(traces)
-    rej, nev = tlc_judge(prop, traces, label)
+    # a panic of Sign on a Signer built as a struct literal by the harness (not by NewSigner) says nothing about the code:
+    # that construction path gives no verdict, the NewSigner-based paths still do
+    lit = [t for t in traces if (t[0].get("info") or {}).get("via") in ("direct", "directnil") and any(r["e"].get("pan") for r in t[1:])]
+    if lit:
+        log("NO-VERDICT for %d case(s) on a Signer built as a struct literal (Sign panicked; construction path dropped): %s" % (len(lit), lit[0][0].get("info")))
+        stats["literal_dropped"] = stats.get("literal_dropped", 0) + len(lit)
+        traces = [t for t in traces if not any(t is x for x in lit)]
+        if not traces:
+            raise NoVerdict("every case of %s ran on a struct-literal Signer that panicked" % label)
+    rej, nev, drift = tlc_judge(prop, traces, label)
     stats["events"] += nev
     stats["traces"] += len(traces)
+    stats["drift"] = stats.get("drift", 0) + len(drift)
+    dk = {}
+    for (ti, li) in drift:
+        dk.setdefault(vkey(traces[ti], li), []).append(ti)
+    for k in sorted(dk)[:10]:
+        log("SPEC-DRIFT (differs from the design, no listed property rejects it; %d cases): %s" % (len(dk[k]), k))
     first = {}
     for (ti, li) in rej:
         first.setdefault(ti, li)
@@ -175,7 +191,7 @@ def judge(prop, verdict, sbin, bbin, traces, label, stats):
             ts, _ = run_signer(prop, sbin, wd, {"mode": mode, "cases": [], "random": 0, "n0": False, "lanes": 4, "tryms": 2000,
                                                  "replays": [case_of(traces[ti]) for ti in sel]}, "confirm_" + mode)
             sanity(ts)
-            rej2, _ = tlc_judge(prop, ts, label + "_confirm_" + mode)
+            rej2, _, _ = tlc_judge(prop, ts, label + "_confirm_" + mode)
             f2 = {}
             for (tj, li) in rej2:
                 f2.setdefault(ts[tj][0]["tid"], li)
@@ -306,7 +322,8 @@ def run(prop, tier):
            "rule": "every configuration of the bounded model (endpoint list x outcome / identity classes x bundle) is executed on the real "
                    "(*Signer).Sign with harness CA servers; every recorded step (what each server saw, what Sign returned, extremes of the "
                    "backoff draws) is judged by TLC with the property's step formula; distinct_nontrivial = distinct observed step labels",
-           "discarded_after_reexecution": stats["flaky"]}
+           "discarded_after_reexecution": stats["flaky"], "spec_drift": stats.get("drift", 0),
+           "struct_literal_cases_dropped": stats.get("literal_dropped", 0)}
     rc = verdict.finish()
     ass = ["the CA is a harness gRPC Signing server (stub replies scripted per endpoint); C17 uses in-memory connections with the dial options "
            "of a real NewSigner (Retries = 1, so no real backoff sleeps), C18 real TLS over 127.0.0.1-4",
